@@ -1,0 +1,35 @@
+//go:build verif
+
+// Contracts for the gvc verifier (/verif). Comment-only file: it adds no code to the package.
+package gcrypto
+
+// ---- public keys: Verify is an uninterpreted predicate (T4) ----
+
+//@ spec Vf(key iface, msg string, sig string) bool
+//@ spec keybytes(key iface) string
+
+//@ iface PubKey.Verify(key, msg, sig)
+//@   ensures result == Vf(key, bytes(msg), bytes(sig))
+
+//@ iface PubKey.PubKeyBytes(key)
+//@   ensures bytes(result) == keybytes(key)
+
+//@ iface PubKey.Equal(key, other)
+//@   ensures result == (typeof(key) == typeof(other) && keybytes(key) == keybytes(other))
+
+// ---- signature proofs: model fields of the CommonMessageSignatureProof interface ----
+// pbits(p): signer index set; pmsg(p): signed message; pkeys(p): candidate keys; pkhash(p): key hash.
+
+//@ ghost pbits(ref) array[mathint,bool]
+//@ spec pmsg(p iface) string
+//@ spec pkeys(p iface) slice
+//@ spec pkhash(p iface) string
+
+//@ iface CommonMessageSignatureProof.SignatureBitSet(p, dst)
+//@   ensures bsbits(dst) == pbits(p)
+//@   modifies bsbits(dst)
+
+//@ iface CommonMessageSignatureProof.Clone(p)
+//@   ensures result != nil && ref(result) != ref(p)
+//@   ensures pbits(result) == pbits(p) && pmsg(result) == pmsg(p) && pkeys(result) == pkeys(p) && pkhash(result) == pkhash(p)
+//@   ensures typeof(result) == typeof(p)
